@@ -240,7 +240,8 @@ def run(tier, seed):
     ev.sample({"row": {k: rows[len(rows) // 2][k] for k in ("ref", "est", "fs")}, "spec": rows[len(rows) // 2]["out"]})
     ev.cov["rule"] = ("every pair of labelled segmentations of the model x frame sizes, random beta in {1/2,1,2}; six functions "
                       "(mutual_information on every %s row) compared to 1e-9 with the specification's exact rationals / textbook "
-                      "evaluation of its table; distinct = distinct (annotations, frame size); non-trivial = both sides have a "
+                      "evaluation of its table; the same on the decimal frame grid (MC_C16_dec) and for segment.evaluate as a composition with its "
+                      "intermediate states (MC_C16_eval); distinct = distinct (annotations, frame size); non-trivial = both sides have a "
                       "repeated and at least two labels" % ("" if thorough else "third"))
     ev.cov["exhaustive"] = True
     ev.d["assumptions"] = ["time unit 0.25 s (exact in float32): frames fall exactly on interval boundaries, the later interval wins",
